@@ -9,7 +9,11 @@ import (
 	"sync/atomic"
 	"time"
 
+	predis "github.com/samaritan-proxy/samaritan/proc/redis"
+
 	"verifharness/internal/cli"
+	"verifharness/internal/resp"
+	"verifharness/internal/sched"
 	"verifharness/internal/simredis"
 	"verifharness/internal/sut"
 )
@@ -39,6 +43,7 @@ func concurrent(args []string) error {
 	out := fs.String("out", "", "results (ndjson)")
 	clients := fs.Int("clients", 6, "concurrent clients")
 	ops := fs.Int("ops", 40, "writes per client")
+	short := fs.Int("short", 1536, "short-stream writes per client")
 	if err := fs.Parse(args); err != nil {
 		return err
 	}
@@ -266,5 +271,171 @@ func concurrent(args []string) error {
 	side.Wait()
 	res.Failures = e.failures()
 	res.Strangers = strangers.Load()
+	if err := w.Write(res); err != nil {
+		return err
+	}
+	return shortStreams(w, *short)
+}
+
+// Short streams (Compress.tla: comp1 values near the threshold, busy = TRUE; OwnFrame): the writers of ALL backend
+// connections compress at the same instant, values whose snappy stream is a few dozen bytes (short runs of one character)
+// and values just above. Every node gets its own pipelining clients, so that the writer of its connection always has
+// work; compression stays on, no slot moves. A value tells who wrote it (the character) and which write it was (the
+// length), so a value that ends up under another key is recognisable.
+func shortStreams(w *lineWriter, perClient int) error {
+	const thr = 64
+	e, err := newEnvN("enabled", thr, 8) // eight backend connections, eight writers
+	if err != nil {
+		return err
+	}
+	defer e.close()
+	res := concResult{Case: fmt.Sprintf("short streams: %d nodes x 4 clients x %d writes in bursts of 32, the backend writers let go together", len(e.cl.Nodes), perClient)}
+	var mu sync.Mutex
+	addBad := func(sig, what string) {
+		mu.Lock()
+		if len(res.Bad) < 50 {
+			res.Bad = append(res.Bad, bad{Sig: sig, What: what})
+			w.Write(concResult{Case: res.Case + " (partial)", Bad: []bad{{Sig: sig, What: what}}})
+		}
+		mu.Unlock()
+	}
+	// lengths by the size of the stream the harness' own snappy produces: <= 58 bytes (it fits behind a 6 byte header
+	// in 64 bytes) and just above
+	var short, above []int
+	for n := 100; n <= 4000 && (len(short) < 400 || len(above) < 100); n++ {
+		l := len(snappyStream(bytes.Repeat([]byte{'x'}, n)))
+		if l <= 58 {
+			short = append(short, n)
+		} else if l <= 90 {
+			above = append(above, n)
+		}
+	}
+	if len(short) < 50 {
+		return fmt.Errorf("no values with a short stream found")
+	}
+	type wr struct {
+		key string
+		val []byte
+	}
+	const perNode = 4 // clients per node
+	const burst = 32  // requests a session keeps outstanding
+	nclients := perNode * len(e.cl.Nodes)
+	written := make([][]wr, nclients)
+	conns := make([]*sut.Client, nclients)
+	rounds := (perClient + burst - 1) / burst
+	for ci := range conns {
+		if conns[ci], err = dialVerified(e.px, e.cl, fmt.Sprintf("ss%d", ci)); err != nil {
+			return err
+		}
+		defer conns[ci].Close()
+		idx := ci % len(e.cl.Nodes)
+		rnd := rand.New(rand.NewSource(cli.Seed()*1000 + int64(ci)))
+		for op := 0; op < rounds*burst; op++ {
+			n := short[(op*7+ci)%len(short)]
+			if op%10 == 9 && len(above) > 0 {
+				n = above[rnd.Intn(len(above))]
+			}
+			written[ci] = append(written[ci], wr{e.cl.KeyFor(idx, fmt.Sprintf("ss:%d:%d:", ci, op)), bytes.Repeat([]byte{byte('A' + ci)}, n)})
+		}
+	}
+	// "at the same instant": the writers of all backend connections are held at the top of their loop (hook
+	// client.loopWrite.select) while every client hands over a burst, then let go together - each works through a queue of
+	// perNode x burst requests while the others do the same
+	addrs := map[string]bool{}
+	for _, n := range e.cl.Nodes {
+		addrs[n.Addr] = true
+	}
+	sc := sched.New(func(point string, a, b interface{}) string {
+		if point != "client.loopWrite.select" && point != "client.Send.enqueued" {
+			return ""
+		}
+		if d := predis.VerifDescribe(a); d.Kind != "client" || !addrs[d.Addr] {
+			return ""
+		}
+		if point == "client.loopWrite.select" {
+			return "W"
+		}
+		return "E"
+	})
+	defer sc.Uninstall()
+	for r := 0; r < rounds; r++ {
+		sc.Install()
+		sc.Gate("W")
+		e0 := sc.Arrived("E")
+		for ci := range conns {
+			var raw []byte
+			for _, x := range written[ci][r*burst : (r+1)*burst] {
+				raw = append(raw, resp.Bytes(resp.CmdB([]byte("SET"), []byte(x.key), x.val))...)
+			}
+			conns[ci].Send(raw)
+		}
+		sc.WaitArrived("E", e0+nclients*burst, 5*time.Second) // all handed over (or as many as the queues take)
+		// let go - and take the hook function away, so that the writers do not queue up at the hook's own lock
+		sc.Uninstall()
+		for ci := range conns {
+			for j := r * burst; j < (r+1)*burst; j++ {
+				v, err := conns[ci].Recv(replyTO)
+				if err != nil {
+					res.Err = fmt.Sprintf("SET %s: no reply: %v", written[ci][j].key, err)
+					return w.Write(res)
+				}
+				if v.IsErr() {
+					addBad("read-failed", fmt.Sprintf("SET %s: %v", written[ci][j].key, v))
+				}
+			}
+		}
+	}
+	sc.Uninstall()
+	// what reached the backend, and what comes back
+	for ci := range conns {
+		for _, x := range written[ci] {
+			res.Writes++
+			res.Values++
+			ent, ok := e.find(x.key)
+			if !ok {
+				addBad("write-lost/concurrent", fmt.Sprintf("SET %s: on no node", x.key))
+				continue
+			}
+			if !bytes.Equal(ent.Str, x.val) {
+				res.Packed++
+			}
+			if ok, why := storedFormOK(ent.Str, x.val); !ok {
+				who := ""
+				if dec, err := decodeSnappyStream(ent.Str[minInt(len(ent.Str), 6):]); err == nil && len(dec) > 0 {
+					who = fmt.Sprintf(" (it holds %d x %q: a value of client %d)", len(dec), dec[:1], int(dec[0]-'A'))
+				}
+				addBad("stored-form/concurrent/short-stream", fmt.Sprintf("SET of %d x %q by client %d while %d clients write to %d nodes: %s%s", len(x.val), x.val[:1], ci, nclients, len(e.cl.Nodes), why, who))
+			}
+		}
+		const batch = 100
+	reads:
+		for lo := 0; lo < len(written[ci]); lo += batch {
+			hi := minInt(lo+batch, len(written[ci]))
+			var raw []byte
+			for _, x := range written[ci][lo:hi] {
+				raw = append(raw, resp.Bytes(resp.Cmd("GET", x.key))...)
+			}
+			conns[ci].Send(raw)
+			for _, x := range written[ci][lo:hi] {
+				v, err := conns[ci].Recv(replyTO)
+				if err != nil {
+					addBad("read-failed", fmt.Sprintf("GET %s: %v", x.key, err))
+					break reads
+				}
+				if !bytes.Equal(v.Str, x.val) && !infraErr(v) {
+					addBad("read-back/concurrent/short-stream", fmt.Sprintf("GET after SET of %d x %q by client %d: read %d bytes (%q...)", len(x.val), x.val[:1], ci, len(v.Str), clip(v.Str)))
+				}
+			}
+		}
+	}
+	res.Failures = e.failures()
+	res.Strangers = strangers.Load()
 	return w.Write(res)
+}
+
+func minInt(a, b int) int {
+	if a < b {
+		return a
+	}
+	return b
 }
